@@ -82,6 +82,8 @@ class _ParsedValues:
     exceptions: list[DocstringRaise] = field(default_factory=list)
     return_value: DocstringReturn | None = None
     return_type: str | None = None
+    # Names of parameters and attributes whose annotation was taken from the parent, for lack of a written type so far.
+    annotated_from_parent: set[str] = field(default_factory=set)
 
 
 def parse_sphinx(docstring: Docstring, *, warn_unknown_params: bool = True, **options: Any) -> list[DocstringSection]:
@@ -206,6 +208,8 @@ def _determine_param_annotation(
             annotation = docstring.parent.parameters[name.lstrip()].annotation  # type: ignore[union-attr]
         except (AttributeError, KeyError):
             docstring_warning(docstring, 0, f"No matching parameter for '{name}'")
+        else:
+            parsed_values.annotated_from_parent.add(f"param:{name}")
 
     return annotation
 
@@ -230,7 +234,9 @@ def _read_parameter_type(
     parsed_values.param_types[param_name] = param_type
     param = parsed_values.parameters.get(param_name)
     if param is not None:
-        if param.annotation is None:
+        # A type written in the docstring takes precedence over the annotation of the signature.
+        if param.annotation is None or f"param:{param_name}" in parsed_values.annotated_from_parent:
+            parsed_values.annotated_from_parent.discard(f"param:{param_name}")
             param.annotation = param_type
         else:
             docstring_warning(docstring, 0, f"Duplicate parameter information for '{param_name}'")
@@ -268,6 +274,7 @@ def _read_attribute(
         with suppress(AttributeError, KeyError, TypeError, ValueError, AliasResolutionError, CyclicAliasError):
             # Use subscript syntax to fetch annotation from inherited members too.
             annotation = docstring.parent[name].annotation  # type: ignore[index]
+            parsed_values.annotated_from_parent.add(f"attr:{name}")
     if name in parsed_values.attributes:
         docstring_warning(docstring, 0, f"Duplicate attribute entry for '{name}'")
     else:
@@ -300,7 +307,8 @@ def _read_attribute_type(
     parsed_values.attribute_types[attribute_name] = attribute_type
     attribute = parsed_values.attributes.get(attribute_name)
     if attribute is not None:
-        if attribute.annotation is None:
+        if attribute.annotation is None or f"attr:{attribute_name}" in parsed_values.annotated_from_parent:
+            parsed_values.annotated_from_parent.discard(f"attr:{attribute_name}")
             attribute.annotation = attribute_type
         else:
             docstring_warning(docstring, 0, f"Duplicate attribute information for '{attribute_name}'")
